@@ -356,24 +356,35 @@ func (i *introspectionVisitor) TypeRef(typeRef int) TypeRef {
 	switch i.definition.Types[typeRef].TypeKind {
 	case ast.TypeKindNamed:
 		name := i.definition.TypeNameBytes(typeRef)
-		node, exists := i.definition.Index.FirstNodeByNameBytes(name)
+		// the index also holds directive definitions and the schema definition under their names:
+		// take the first node that is a type definition
+		nodes, _ := i.definition.Index.NodesByNameBytes(name)
+		var typeKind __TypeKind
+		exists := false
+		for _, node := range nodes {
+			exists = true
+			switch node.Kind {
+			case ast.NodeKindScalarTypeDefinition:
+				typeKind = SCALAR
+			case ast.NodeKindObjectTypeDefinition:
+				typeKind = OBJECT
+			case ast.NodeKindEnumTypeDefinition:
+				typeKind = ENUM
+			case ast.NodeKindInterfaceTypeDefinition:
+				typeKind = INTERFACE
+			case ast.NodeKindUnionTypeDefinition:
+				typeKind = UNION
+			case ast.NodeKindInputObjectTypeDefinition:
+				typeKind = INPUTOBJECT
+			default:
+				exists = false
+			}
+			if exists {
+				break
+			}
+		}
 		if !exists {
 			return TypeRef{TypeName: "__Type"}
-		}
-		var typeKind __TypeKind
-		switch node.Kind {
-		case ast.NodeKindScalarTypeDefinition:
-			typeKind = SCALAR
-		case ast.NodeKindObjectTypeDefinition:
-			typeKind = OBJECT
-		case ast.NodeKindEnumTypeDefinition:
-			typeKind = ENUM
-		case ast.NodeKindInterfaceTypeDefinition:
-			typeKind = INTERFACE
-		case ast.NodeKindUnionTypeDefinition:
-			typeKind = UNION
-		case ast.NodeKindInputObjectTypeDefinition:
-			typeKind = INPUTOBJECT
 		}
 		nameStr := unsafebytes.BytesToString(name)
 		return TypeRef{
